@@ -201,6 +201,9 @@ def run(chk, failed):
             chk.count("impl:" + a.split(" ")[0] + ("" if " " not in a else " " + a.split(" ")[1]))
         else:
             chk.count("conf:impl=" + ("mismatch" if ("MISMATCH" in a or a.startswith("CONFIGURE-PANIC")) else "agrees"))
+        if c.get("kind") is None and not G.json_safe(c) and any(f == "nan" for f in G._floats(c)):
+            # outside the evaluator's range (C20_jsonencoder_total): recorded, never judged
+            chk.count("nan-injected:%s:%s" % (c["template"], a))
         fails = G.oracle_any(c, a)
         if fails:
             # no recorded, unrepaired finding exists for C20 (F11 was repaired by /repo commit 3f5942d and suppresses
@@ -256,7 +259,11 @@ def run(chk, failed):
     chk.assumptions += [
         "text/template, fmt, time.Format and encoding/json are modelled by their documented behaviour (Tmpl.v header), not verified",
         "hole languages (Json.inst): what Go prints for an integer or a finite float is a JSON number literal (go_number grammar proved to be one), "
-        "json.Marshal output is a text json.Valid accepts, time.Format / String-method output is JSON-string-safe",
+        "the output of a json.Marshal call that SUCCEEDS is a text json.Valid accepts (failure - NaN/Inf floats only for these types - is modelled: "
+        "jsonencoder returns \"\"; C20_jsonencoder_total excludes it for evaluator replies within 2^24 partitions/slots), time.Format / String-method output is JSON-string-safe",
+        "C20_module_renders_configured_template, C20_module_data_offers_configured, C20_module_data_fields are model-level definitions made explicit "
+        "(true by construction); their content is the conf / seq ties",
+        "no probe case runs the real evaluator through the notifier into a template: evaluator -> notifier -> template is tied piecewise (C03/C04/PIPE, conf/seq)",
         "value-receiver methods with a single string result (StatusConstant.String, time.Time.Format) are total",
         "what the module classes hand to executeTemplate: Tmpl.notify_step models Notify as reading its extras and leaving them alone; that the real "
         "HTTPNotifier / EmailNotifier (and notifyModule's choice of start time) do so is established by the seq cases of the probe, not by proof",
